@@ -2009,6 +2009,10 @@ func (vc *VC) typeAssert(st *State, x *ssa.TypeAssert) {
 	} else {
 		f := vc.declareFun("unbox_"+sanitize(vc.sortOf(x.AssertedType)), []string{"Int"}, vc.sortOf(x.AssertedType))
 		vc.assume(st, sx("=", ok, sx("and", sx("not", sx("=", v, "0")), sx("=", sx("dyntype", v), vc.typeTag(x.AssertedType)))))
+		if isStructLike(x.AssertedType) {
+			// the boxed struct value is a snapshot that already exists: it is not one of the objects allocated later
+			vc.assume(st, sx("and", sx("<=", "0", sx(f, v)), sx("<=", sx(f, v), vc.allocBase)))
+		}
 		res = smtIte(ok, sx(f, v), vc.zeroOf(x.AssertedType))
 	}
 	vc.assume(st, sx("=>", ok, sx("not", sx("=", v, "0"))))
